@@ -8,10 +8,11 @@
    deposit top-up (processDeposit), ReturnDepositCoin, and the per-block
    bookkeeping: pending -> active after ActivateDuration = 6 confirmations,
    deposit release DepositLockupBlocks after the cancel height, last block
-   timestamp, tryUpdateLastIrreversibleHeight (DPOS consensus, no POW<->DPOS
-   switch).  Not modelled: inactive / illegal producers, DPoS v2 stake and
-   votes, NFTs, CR council claims, consensus-mode switches, the arbiter
-   rotation of dpos/state/arbitrators.go.  Those are covered by the
+   timestamp, RevertToPOW / RevertToDPOS and the switch back to DPOS at the
+   work height (consensus mode), tryUpdateLastIrreversibleHeight in all three
+   branches.  Not modelled: inactive / illegal producers, DPoS v2 stake and
+   votes, NFTs, CR council claims, the arbiter rotation of
+   dpos/state/arbitrators.go.  Those are covered by the
    differential oracle of harness/cmd/c21 only.
 
    State: the Go maps and producer objects are laid out in one vector of
@@ -68,7 +69,13 @@ Section Layout.
   Definition iTs : nat := (pK P * F + pM P + 2 * pR P)%nat.
   Definition iLih : nat := (iTs + 1)%nat.
   Definition iDst : nat := (iTs + 2)%nat.
-  Definition vlen : nat := (iTs + 3)%nat.
+  Definition iCA : nat := (iTs + 3)%nat.       (* ConsensusAlgorithm: 0 = DPOS, 1 = POW *)
+  Definition iWork : nat := (iTs + 4)%nat.     (* DPOSWorkHeight *)
+  Definition iRevH : nat := (iTs + 5)%nat.     (* RevertToPOWBlockHeight *)
+  Definition iNoProd : nat := (iTs + 6)%nat.   (* NoProducers *)
+  Definition iNoClaim : nat := (iTs + 7)%nat.  (* NoClaimDPOSNode *)
+  Definition iNeedTx : nat := (iTs + 8)%nat.   (* NeedRevertToDPOSTX *)
+  Definition vlen : nat := (iTs + 9)%nat.
 
   (* locations updated additively (votes, totalAmount); every other location
      is assigned *)
@@ -109,7 +116,9 @@ Inductive tx :=
 | TVote (r : nat) (cands : list (nat * Z))           (* vote output ref, (candidate slot, votes) *)
 | TUnvote (r : nat) (cands : list (nat * Z))         (* spends vote output r carrying these candidate votes *)
 | TTopup (k : nat) (amount : Z) (r : nat)
-| TReturn (k : nat) (refs : list nat) (chg : Z).     (* spends deposit outputs refs *)
+| TReturn (k : nat) (refs : list nat) (chg : Z)      (* spends deposit outputs refs *)
+| TRevertPow                                          (* RevertToPOW *)
+| TRevertDpos (interval : Z).                         (* RevertToDPOS, WorkHeightInterval *)
 
 Record block := Block { b_height : Z; b_time : Z; b_txs : list tx }.
 
@@ -179,7 +188,21 @@ Section Model.
           [DChg [PAdd (iP k fTotal) (- input); PRet (iP k fSt) (iP k fTotal) chg (p_fee P)]
                 [PAdd (iP k fTotal) input; PSet (iP k fSt) stCanceled]]
         else []
+    | TRevertPow =>
+        (* processRevertToPOW *)
+        [DChg [PSet (iCA P) 1; PSet (iNoProd P) 0; PSet (iNoClaim P) 0; PSet (iWork P) 0; PSet (iRevH P) h]
+              [PSet (iCA P) 0; PSet (iNoProd P) (get s (iNoProd P)); PSet (iNoClaim P) (get s (iNoClaim P));
+               PSet (iWork P) (get s (iWork P)); PSet (iRevH P) (get s (iRevH P))]]
+    | TRevertDpos iv =>
+        (* processRevertToDPOS *)
+        [DChg [PSet (iWork P) (h + iv); PSet (iNeedTx P) 0]
+              [PSet (iWork P) (get s (iWork P)); PSet (iNeedTx P) (get s (iNeedTx P))]]
     end.
+
+  (* processTransactions, at the end: back to DPOS at the work height *)
+  Definition revert_dpos_changes (s : vec) (h : Z) : list dchg :=
+    if negb (get s (iWork P) =? 0) && (get s (iWork P) <=? h) && (get s (iCA P) =? 1)
+    then [DChg [PSet (iCA P) 0] [PSet (iCA P) 1]] else [].
 
   Definition slots : list nat := seq 0 (pK P).
 
@@ -202,21 +225,26 @@ Section Model.
   Definition ts_changes (s : vec) (t : Z) : list dchg :=
     [DChg [PSet (iTs P) t] [PSet (iTs P) (get s (iTs P))]].
 
-  (* tryUpdateLastIrreversibleHeight (ConsensusAlgorithm = DPOS, DPOSWorkHeight = 0) *)
+  (* tryUpdateLastIrreversibleHeight; the distance is a uint32 subtraction *)
   Definition lih_changes (s : vec) (h : Z) : list dchg :=
     if h <? p_revert_start P then []
     else if get s (iLih P) =? 0 then
       [DChg [PSet (iLih P) (h - irreversible_height); PSet (iDst P) (h - irreversible_height)]
             [PSet (iLih P) (get s (iLih P)); PSet (iDst P) (get s (iDst P))]]
-    else if irreversible_height <=? h - get s (iDst P) then
-      [DChg [PLih (iLih P) (iDst P)] [PSet (iDst P) (get s (iDst P)); PSet (iLih P) (get s (iLih P))]]
+    else if get s (iCA P) =? 0 then
+      (if negb (get s (iWork P) =? 0) && (h =? get s (iWork P) + 1)
+       then [DChg [PSet (iDst P) h] [PSet (iDst P) (get s (iDst P))]] else []) ++
+      (if irreversible_height <=? (h - get s (iDst P)) mod 4294967296
+       then [DChg [PLih (iLih P) (iDst P)] [PSet (iDst P) (get s (iDst P)); PSet (iLih P) (get s (iLih P))]]
+       else [])
     else [].
 
   (* State.ProcessBlock: the changes a block appends, all computed from the
      state before the block *)
   Definition block_changes (s : vec) (b : block) : list dchg :=
     flat_map (tx_changes s (b_height b)) (b_txs b) ++
-    activation_changes s (b_height b) ++ lockup_changes s (b_height b) ++
+    activation_changes s (b_height b) ++ revert_dpos_changes s (b_height b) ++
+    lockup_changes s (b_height b) ++
     ts_changes s (b_time b) ++ lih_changes s (b_height b).
 
   Definition mstate := (history vec * vec)%type.
